@@ -767,3 +767,37 @@ pub fn locate_family(r: &mut Rng, n: u64, x: &mut Exec, sink: &mut Sink) {
         }
     }
 }
+
+/// C05 (entry-size clause): one of the entsize-checked sections (symtab, dynsym, .dynamic, .gnu.version) declares a
+/// wrong sh_entsize; both parsers are asked for the tables that depend on it
+pub fn entsize_family(r: &mut Rng, n: u64, x: &mut Exec, sink: &mut Sink) {
+    for _ in 0..n {
+        let (sp, mut b) = random_elf(r, true);
+        let cands: Vec<usize> = sp.secs.iter().enumerate().filter(|(_, s)| [SHT_SYMTAB, SHT_DYNSYM, SHT_DYNAMIC, SHT_GNU_VERSYM].contains(&s.ty)).map(|(i, _)| i).collect();
+        let mut note = vec![];
+        if !cands.is_empty() && sp.have_shdrs {
+            let i = *r.pick(&cands);
+            let good = sp.secs[i].entsize;
+            let v = *r.pick(&[0u64, good.wrapping_sub(1), good + 1, if sp.class == 32 { good * 3 / 2 } else { good * 2 / 3 }, 0xffff, 1, good]);
+            let label = format!("sh{i}.sh_entsize");
+            if let Some((off, w, _)) = b.fields.iter().find(|f| f.2 == label).cloned() {
+                let mut e = Vec::new(); put(&mut e, v, w, sp.little);
+                b.bytes[off..off + w].copy_from_slice(&e);
+                note.push(format!("{label}={v} (type {:#x}, good {good})", sp.secs[i].ty));
+            }
+        }
+        sink.run(x, &json!({"op":"session","family":"entsize","what":note}));
+        sink.run(x, &file_buf_op("file", &b.bytes));
+        let mut qs: Vec<Value> = ["symbol_table", "dynamic_symbol_table", "dynamic", "find_common_data"].iter().map(|n| json!({"name": n})).collect();
+        qs.push(json!({"name":"symbol_version_table","qs":[["req", w8(1)], ["def", w8(1)]]}));
+        qs[3]["names"] = json!([]);
+        let evs = sink.run(x, &json!({"op":"open","es":"Any","fileslot":"file"}));
+        if evs.first().map(|e| e["res"]["out"] == "ok").unwrap_or(false) {
+            for q in &qs { let mut o = q.clone(); o["op"] = json!("q"); sink.run(x, &o); }
+        }
+        let evs = sink.run(x, &json!({"op":"sopen","es":"Any","fileslot":"file","reader":{"chunk":"full","seed":1,"faults":[]}}));
+        if evs.first().map(|e| e["res"]["out"] == "ok").unwrap_or(false) {
+            for q in &qs { if q["name"] == "find_common_data" { continue; } let mut o = q.clone(); o["op"] = json!("sq"); sink.run(x, &o); }
+        }
+    }
+}
